@@ -4,13 +4,13 @@ NOT_YET = "check under construction (nothing is claimed for it yet)"
 
 CFG = dict(
     rule="two kinds of case, both running the REAL pipeline under one control client (SourceControl.Start -> Start/CoreLoop; Triangle / SimPulse sources, "
-         "an AbacoSource on a scripted packet producer incl. external-trigger packets, a LanceroSource on a scripted card; triggers firing (auto+edge, group "
+         "an AbacoSource on a scripted packet producer with 1..3 channel groups incl. external-trigger packets, a LanceroSource on a scripted card; triggers firing (auto+edge, group "
          "trigger, err->FB coupling), LJH2.2+LJH3+OFF files written, the real RunClientUpdater status thread incl. its delayed save of the viper store, "
          "two StoreRawDataBlock archives, ConfigureTriggers / Projectors / WriteControl START-PAUSE-UNPAUSE-STOP / state label / comment / pulse lengths / "
          "SendAllStatus / WriteComment / ReadComment / Stop; a QUIET phase of 2.6 s without requests while files are written, so that the status thread's delayed "
          "save fires while core-loop status messages keep coming; a Triangle source with 2.5 s blocks, so that ONE block closes several 1-second trigger-rate periods). `kind trace`: hooks verifAcc/verifSync (build tag verif) log every access to the NAMED shared state (next frame number, "
          "external-trigger queue, block + segments, archive block, filled archive block, per-processor state, trigger state, broker connections / tables, "
-         "trigger-rate slices, writing state, viper store, the status thread's table of last messages) and every synchronisation operation, with random yields at the hook sites; the canonicalised trace must "
+         "trigger-rate slices, writing state, viper store, the status thread's table of last messages, the Abaco reader loop's working state) and every synchronisation operation, with random yields at the hook sites; the canonicalised trace must "
          "(1) pass the vector-clock analysis raceFree (else viol C17:race-<var>), (2) be a feasible linearisation, (3) be accepted by the ownership contracts of "
          "the skeleton (mkSpec; conformance). `kind race`: FAILING-SCHEDULE SEARCH ONLY — the same scenario in a child built once per run with `go build -race "
          "-tags verif` (verifPoint overlaid by a lock-free version, hooks quiet, random yields at all hook sites); every `WARNING: DATA RACE` is minimised to the "
